@@ -20,6 +20,17 @@ pub open spec fn abi_allowed(a: ClangAbi, f: RustFeatures) -> bool {
 }
 """
 
+ABI_NAMES = ["C", "stdcall", "efiapi", "fastcall", "thiscall", "vectorcall", "aapcs", "win64", "C-unwind", "system"]
+ABI_SPEC = """
+// the ABI strings of the Rust reference for the calling conventions bindgen knows
+pub open spec fn abi_string(a: Abi) -> Seq<char> {
+    match a {
+        Abi::C => "C"@, Abi::Stdcall => "stdcall"@, Abi::EfiApi => "efiapi"@, Abi::Fastcall => "fastcall"@,
+        Abi::ThisCall => "thiscall"@, Abi::Vectorcall => "vectorcall"@, Abi::Aapcs => "aapcs"@,
+        Abi::Win64 => "win64"@, Abi::CUnwind => "C-unwind"@, Abi::System => "system"@,
+    }
+}
+"""
 OVERRIDE_1 = "ctx .options() .abi_overrides .iter() .find(|(_, regex_set)| regex_set.matches(name))"
 OVERRIDE_2 = "ctx .options() .abi_overrides .iter() .find(|(_, regex_set)| regex_set.matches(&self.name))"
 
@@ -32,6 +43,16 @@ UNIT = {
         {"kind": "enum", "file": FN, "name": "ClangAbi", "prefix": "#[derive(Copy, Clone, PartialEq, Eq, Structural)]"},
         {"kind": "struct", "file": FN, "name": "FunctionSig"},
         {"kind": "raw", "label": "fn_abi_spec", "text": SPEC},
+        # C04 (call-compatible signature): the string written after `extern` is the Rust ABI string of the calling convention
+        # (Rust reference, "ABI" of external blocks; table transcribed in ABI_SPEC): the `let s = match ..` statement of
+        # <Abi as Display>::fmt (let-statement R18), which <Abi as ToTokens>::to_tokens prints
+        {"kind": "raw", "label": "abi_names", "text": ABI_SPEC},
+        {"kind": "fn", "file": FN, "name": "abi_name", "impl": r"^impl std::fmt::Display for Abi$", "ret": "r",
+         "closure": {"enclosing": "fmt", "anchor_re": r"(?m)^\s*let s = match \*self \{", "nth": 0, "stmt": "let",
+                     "signature": "fn abi_name(self_: &Abi) -> (r: &'static str)", "prefix": "{", "suffix": "; s }"},
+         "subst": [(r"re:\bSelf::", "Abi::", 0, "Self is Abi"), (r"re:(?<![\w.:])self(?![\w(:])", "self_", 0, "R18 captured self")],
+         "proof_start": " ".join('reveal_strlit("%s");' % n for n in ABI_NAMES),
+         "ensures": ["r@ == abi_string(*self_)"]},
         {"kind": "fn", "file": FN, "name": "is_variadic", **FS, "ret": "r",
          "ensures": ["r == (self.is_variadic && self.argument_types@.len() != 0)"]},
         {"kind": "const", "file": FN, "name": "RUST_DERIVE_FUNPTR_LIMIT"},
